@@ -36,6 +36,46 @@ PANIC_EXCEPTIONS = {
 }
 
 
+def _int_lexer_justified(prog, f):
+    """Machine-checkable part of exception 2: the only fallible conversion in
+    the function is the decimal `str::parse::<i64>`, and every call of the
+    function is behind a successful `is_ascii_digit` test of the current
+    character.  Returns (ok, what failed)."""
+    convs = []
+    for c in f.calls():
+        full = (c.res_full or "") + " " + (c.res or "")
+        if "from_str_radix" in full or "parse::<" in full or "FromStr" in (c.declared or ""):
+            convs.append(full.strip())
+    if not convs:
+        return False, "no integer conversion found"
+    bad = [x for x in convs if "parse::<i64>" not in x or "from_str_radix" in x]
+    if bad:
+        return False, "the literal is converted with %s, not the decimal str::parse::<i64>" % bad[0].split(" ")[0]
+    for c in prog.callers_of(f.path):
+        g = c.fn
+        guarded = False
+        for d in g.calls():
+            if (d.res or "").endswith("is_ascii_digit") and d.target is not None \
+                    and g.term(d.target)["k"] == "switch":
+                info = g.switch_info(d.target)
+                if info and info["kind"] == "bool":
+                    t_true = info["otherwise"]
+                    for v, tgt in info["cases"]:
+                        if v is True:
+                            t_true = tgt
+                    t_false = dict((str(v), t) for v, t in info["cases"]).get("False")
+                    if g.dominates(t_true, c.bb) and (t_false is None or t_true != t_false):
+                        guarded = True
+        if not guarded:
+            return False, "%s calls it without an is_ascii_digit test of the first character" % g.path
+    return True, ""
+
+
+PANIC_EXCEPTION_CHECKS = {
+    "lexer::Lexer::<'input>::next_int": _int_lexer_justified,
+}
+
+
 def closure_defs_in_args(f, c):
     out = []
     for a in c.args:
@@ -274,9 +314,19 @@ def rule_R02_5(ctx):
                        % (f.path, c.res))
                 r.ok()
             elif f.path in PANIC_EXCEPTIONS:
-                r.inst("%s: %s — reviewed exception: %s"
-                       % (f.path, c.res, PANIC_EXCEPTIONS[f.path]))
-                r.ok()
+                chk = PANIC_EXCEPTION_CHECKS.get(f.path)
+                ok_, why_ = chk(prog, f) if chk else (True, "")
+                if ok_:
+                    r.inst("%s: %s — reviewed exception: %s"
+                           % (f.path, c.res, PANIC_EXCEPTIONS[f.path]))
+                    r.ok()
+                else:
+                    r.inst("%s: %s — reviewed exception NO LONGER JUSTIFIED: %s" % (f.path, c.res, why_))
+                    r.fail("%s | panic arm no longer justified" % f.path,
+                           "the panic in %s was accepted because %s; that "
+                           "argument no longer applies (%s), so some input "
+                           "may now reach the panic" % (f.path, PANIC_EXCEPTIONS[f.path], why_),
+                           where=c.loc)
             else:
                 r.inst("%s: %s — UNREVIEWED" % (f.path, c.res))
                 r.unproven.append("%s calls %s at %s (not provably dead, not "
